@@ -72,3 +72,29 @@ Definition cmode_of (m : Split.mode) : mode := match m with Split.ModeA => ModeA
 Definition loaded_for (s : N) (m0 m : Split.mode) (order : bool) : N :=
   t_subset (if order then set_subset s (set_mode (cmode_of m) (tok_create (cmode_of m0)))
             else set_mode (cmode_of m) (set_subset s (tok_create (cmode_of m0)))).
+
+(* ------------------------------------------------------------------ the facts this glue was written for *)
+From Coq Require Import String.
+From SudachiVerif Require Generated.SubsetUse Generated.FieldOrder.
+Module SU := Generated.SubsetUse.
+Fixpoint slist_eqb (a b : list string) : bool :=
+  match a, b with
+  | [], [] => true
+  | x :: a', y :: b' => String.eqb x y && slist_eqb a' b'
+  | _, _ => false
+  end.
+Definition sincl (a b : list string) : bool := forallb (fun x => existsb (String.eqb x) b) a.
+(* stage order lattice -> resolve -> rewrite -> split; the subset is used only by the configuration calls, by
+   resolve_best_path, by the split_path call and by the hand-over of results; the lattice stage mentions neither the
+   subset nor a word info; JoinNumeric reads pos_id and normalized_form (which falls back to the surface), JoinKatakanaOov
+   no word-info accessor at all; the concat functions copy the listed WordInfoData fields *)
+Definition subset_use_ok : bool :=
+  slist_eqb SU.stage_order ["build_lattice"; "resolve_best_path"; "plugin_rewrite"; "split_path"]%string
+  && sincl SU.subset_users ["create"; "set_mode"; "set_subset"; "do_tokenize"; "resolve_best_path"; "swap_result"; "into_morpheme_list"]%string
+  && slist_eqb SU.lattice_stage_mentions []
+  && sincl SU.numeric_reads ["normalized_form"; "pos_id"]%string
+  && slist_eqb SU.katakana_reads []
+  && sincl SU.concat_nodes_fields ["dictionary_form"; "head_word_length"; "normalized_form"; "pos_id"; "reading_form"; "surface"]%string
+  && sincl SU.concat_oov_nodes_fields ["head_word_length"; "surface"]%string
+  && sincl SU.plugin_node_methods ["begin"; "char_range"; "end"; "is_oov"; "num_codepts"; "word_info"]%string
+  && existsb (fun p => String.eqb (fst p) "normalized_form" && String.eqb (snd p) "surface") Generated.FieldOrder.accessor_fallbacks.
